@@ -63,10 +63,14 @@ def c01(chk):
                 "x-piko-endpoint with a conflicting Host, TCP route); then churn: upstreams of all endpoints "
                 "connecting/disconnecting on random nodes with requests in flight; judged by TLC")
     chk.assumptions = ["'settled' = every node's /status/cluster/nodes equals every node's /status/upstream/endpoints",
-                       "during churn a tunnelled TCP connection that is cut before the reply counts as refused"]
+                       "during churn a tunnelled TCP connection that is cut before the reply counts as refused",
+                       "a settled request that is refused is re-issued once after everything has settled again and "
+                       "is a violation only if refused again (a starved machine makes the 10 ms failure detectors of "
+                       "the test clusters flag peers for a moment); more than 3 such re-issues per run = no verdict"]
     model(chk, "C01-3nodes", ["a", "b", "c"])
     ops = {}
     outcomes = 0
+    transient = 0
     for n, sample, churn in ([(2, 14, 150), (3, 10, 150)] if quick else [(2, 0, 1000), (3, 0, 3000)]):
         v, st = engine.run(chk, "peng", {"mode": "c01", "n": n, "sample": sample, "churn": churn},
                            "%d-nodes" % n, "TraceP", TRACE_CONSTS, C01_TRACE, "peng-trace", what="the live cluster",
@@ -74,7 +78,13 @@ def c01(chk):
         for k, c in st["by_op"].items():
             ops[k] = ops.get(k, 0) + c
         outcomes += st.get("distinct_outcomes", 0)
+        transient += st.get("transient_served", 0)
     chk.notes["executed_calls_by_action"] = ops
+    chk.notes["refused_then_served_after_resettling"] = transient
+    if transient > 3:
+        raise vp.Machinery("%d settled requests were refused at first and served after the routing information had "
+                           "settled again: the machine is too starved for the 10 ms gossip interval of the test "
+                           "clusters (or the code is flaky); no verdict" % transient)
     chk.nontrivial = outcomes
     chk.rule += "; distinct_nontrivial = distinct (status, stamped endpoint) outcomes"
     chk.exhaustive = chk.exhaustive and not quick
